@@ -80,8 +80,8 @@ class ReplayEngine:
         self.sig = {}
         self.assumptions = []
         self.inputs = []
-        self.rtol = float(self.opts.get("replay_rtol", 1e-6 if f64 else 1e-4))
-        self.atol = float(self.opts.get("replay_atol", 1e-9 if f64 else 1e-5))
+        self.rtol = float(self.opts.get("replay_rtol", 1e-9 if f64 else 1e-4))
+        self.atol = float(self.opts.get("replay_atol", 1e-11 if f64 else 1e-5))
         self._rng = None
         self._old_default = None
 
@@ -206,6 +206,7 @@ class ReplayEngine:
         if a_shape != tuple(b_shape):
             self.oblige(label + ":shape", False, got_shape=list(a_shape), expected_shape=list(b_shape), **sig)
             return
+        sig.pop("split", None)
         ok = self.all_same(got, expected)
         if not ok:
             a = self.read(got) if isinstance(got, torch.Tensor) else np.asarray(got, dtype=object)
